@@ -78,7 +78,7 @@ enum_declaration = {
 }
 
 constraint = { identifier ~ "=" ~ (identifier|integer) }
-constraint_list = { constraint ~ ("," ~ constraint)* }
+constraint_list = { constraint ~ ("," ~ constraint)* ~ ","? }
 
 checksum_field = { "_checksum_start_" ~ "(" ~ identifier ~ ")" }
 padding_field = { "_padding_" ~ "[" ~ integer ~ "]" }
